@@ -252,9 +252,15 @@ func findFirstVideoTrak(moov *mp4.MoovBox) (*mp4.TrakBox, bool) {
 
 func getChunkOffset(stbl *mp4.StblBox, chunkNr int) (int64, error) {
 	if stbl.Stco != nil {
+		if chunkNr < 1 || chunkNr > len(stbl.Stco.ChunkOffset) {
+			return 0, fmt.Errorf("chunk number %d is outside the %d chunk offsets of stco", chunkNr, len(stbl.Stco.ChunkOffset))
+		}
 		return int64(stbl.Stco.ChunkOffset[chunkNr-1]), nil
 	}
 	if stbl.Co64 != nil {
+		if chunkNr < 1 || chunkNr > len(stbl.Co64.ChunkOffset) {
+			return 0, fmt.Errorf("chunk number %d is outside the %d chunk offsets of co64", chunkNr, len(stbl.Co64.ChunkOffset))
+		}
 		return int64(stbl.Co64.ChunkOffset[chunkNr-1]), nil
 	}
 	return 0, fmt.Errorf("neither stco nor co64 is present")
